@@ -229,7 +229,12 @@ impl<T> Drop for Drain<'_, T> {
             // this can be achieved by manipulating the slice length instead of moving values out from `iter`.
             unsafe {
                 let old_len = self.slice.len();
-                non_null::set_len(self.slice, old_len + iter.len() + self.tail_len);
+                let drop_len = iter.len();
+
+                // The remaining elements are dropped by the `truncate` below, not by `iter`.
+                mem::forget(iter);
+
+                non_null::set_len(self.slice, old_len + drop_len + self.tail_len);
                 non_null::truncate(self.slice, old_len + self.tail_len);
             }
 
